@@ -613,6 +613,10 @@ class Scores:
     ):
         scores = scores.astype(float)  # Otherwise we can get problems with nextafter
 
+        # The special cases below refer to the requested ratio, not the shifted one.
+        at_lower_end = target_ratio <= 0.0
+        at_upper_end = target_ratio >= 1.0
+
         if not left_continuous:
             min_ratio = 1.0 / len(scores)
             target_ratio = target_ratio - min_ratio
@@ -635,8 +639,8 @@ class Scores:
         threshold = np.asarray(threshold)  # We need this when target_ratio is scalar
 
         # Special cases of TPR <= 0. and TPR >= 1.
-        threshold[target_ratio <= 0.0] = np.nextafter(scores[0], -np.inf)
-        threshold[target_ratio >= 1.0] = np.nextafter(scores[-1], np.inf)
+        threshold[at_lower_end] = np.nextafter(scores[0], -np.inf)
+        threshold[at_upper_end] = np.nextafter(scores[-1], np.inf)
 
         return threshold
 
